@@ -17,6 +17,9 @@ CHECKS = {
  "C09": dict(level="model_checking", technique="bounded exhaustive enumeration of @error grammars x all strings (tokens + lexer ERROR) up to a bound + pumped variants, on the real runtime with exact non-termination criteria; Earley viability oracle",
    text="Every conflict-free grammar of the @error spaces is run on every input up to the bound (and pumped inputs) on the real template code; termination is decided exactly (repeated configuration / pumping / _recover inner-loop bound), and verdict, blamed token and consumed symbols are compared with an Earley reference.",
    note="Trusted: internal/cfgref Earley. The blamed-token oracle applies to reduced grammars; when the Error for the first bad token is still on the stack at the first delivery (right-nested error productions, bottom-up order) that is accepted and counted. The generic action never calls recoverLookahead.", ref="DESIGN.md section C09, 2.4"),
+ "C16": dict(level="model_checking", technique="bounded exhaustive enumeration of nullable-rich grammars x all sentences up to a bound, executed on the second template variant (bounds carrier); spans compared with the yields of the reduction tree; differential against the plain variant",
+   text="For every accepted grammar with a nullable non-terminal, every sentence up to the bound is parsed by the real _onBounds template variant: exactly one call right after each non-empty reduction with the action's result and first/last token of the yield, none for empty yields, and verdict/reductions/reads identical to the variant without _onBounds.",
+   note="Trusted: the tree built by the generic action from the real stack (its shape is C01/C03's subject). Error inputs are checked for exactly-once and crash freedom only.", ref="DESIGN.md section C16"),
 }
 
 NA_REASON = "check not built yet (work in progress; see DESIGN.md for the plan)"
